@@ -1,0 +1,47 @@
+//go:build verif
+
+package packet
+
+// Contracts for CONNECT (§3.1) (govc, /verif). Comments only.
+//
+// versionNames is a package-level table that is only ever read; its content
+// is stated as a global invariant (no function of the package writes it:
+// checked by govc's writers scan).
+//
+//@ global versionNames [names] has(versionNames, 3) && has(versionNames, 4) && len(versionNames[3]) == 6 && len(versionNames[4]) == 4 && arr(versionNames[3]) != 0 && arr(versionNames[4]) != 0
+//
+//@ spec func connrl(c *Connect) int = (c.Version == 3 ? 9 : 7) + 3 + 2 + len(c.ClientID) + (c.Will != nil ? 4 + len(c.Will.Topic) + len(c.Will.Payload) : 0) + (len(c.Username) > 0 ? 2 + len(c.Username) : 0) + (len(c.Password) > 0 ? 2 + len(c.Password) : 0)
+//@ spec pred wf_connect(c *Connect) = (c.Version == 0 || c.Version == 3 || c.Version == 4) && (c.Will != nil ==> len(c.Will.Topic) >= 1 && len(c.Will.Topic) <= 65535 && c.Will.QOS <= 2 && len(c.Will.Payload) <= 65535) && (len(c.ClientID) == 0 ==> c.CleanSession) && len(c.ClientID) <= 65535 && (len(c.Password) > 0 ==> len(c.Username) > 0) && len(c.Username) <= 65535 && len(c.Password) <= 65535 && connrl(c) <= 268435455
+//
+//@ func (c *Connect) len() (n int)
+//@   ensures n == connrl(c)
+//@ func (c *Connect) Len() (n int)
+//@   ensures [size] connrl(c) <= 268435455 ==> n == 1 + vlen(connrl(c)) + connrl(c)
+//@   ensures [big]  connrl(c) > 268435455 ==> n == 1 + connrl(c)
+//
+//@ func (c *Connect) Encode(dst []byte) (n int, err error)
+//@   requires [sep]    (c.Will == nil || arr(c.Will.Payload) != arr(dst)) && arr(versionNames[3]) != arr(dst) && arr(versionNames[4]) != arr(dst)
+//@   ensures [ok]      wf_connect(c) && len(dst) >= 1 + vlen(connrl(c)) + connrl(c) ==> err == nil
+//@   ensures [count]   err == nil ==> n == 1 + vlen(connrl(c)) + connrl(c)
+//@   ensures [l-hdr]   err == nil ==> hdr_at(dst, 1, 0, connrl(c))
+//@   ensures [version] err == nil ==> (c.Version == 3 || c.Version == 4) && (old(c.Version) != 0 ==> c.Version == old(c.Version)) && (old(c.Version) == 0 ==> c.Version == 4)
+//@   ensures [rej]     err == nil ==> (c.Will != nil ==> len(c.Will.Topic) >= 1 && c.Will.QOS <= 2) && (len(c.ClientID) == 0 ==> c.CleanSession) && (len(c.Password) > 0 ==> len(c.Username) > 0)
+//@   modifies dst[0:len(dst)], c.Version
+//
+// Position of the connect-flags byte: after the protocol name and the level.
+//@ spec func cfpos(src []byte) int = hlen(src) + 2 + be16(src, hlen(src)) + 1
+//@ spec func cflags(src []byte) int = src[cfpos(src)]
+//
+//@ func (c *Connect) Decode(src []byte) (n int, err error)
+//@   requires [fresh-packet] c.Will == nil
+//@   ensures [bound]   0 <= n && n <= len(src)
+//@   ensures [hdr]     err == nil ==> hdr_ok(src, 1) && cfpos(src) < len(src)
+//@   ensures [extent]  err == nil ==> n == hlen(src) + rlen(src)
+//@   ensures [version] err == nil ==> (c.Version == 3 || c.Version == 4) && c.Version == src[cfpos(src) - 1]
+//@   ensures [flags]   err == nil ==> cflags(src) % 2 == 0 && (c.CleanSession <==> (cflags(src) / 2) % 2 == 1) && c.KeepAlive == be16(src, cfpos(src) + 1)
+//@   ensures [will]    err == nil && (cflags(src) / 4) % 2 == 1 ==> c.Will != nil && fresh(c.Will) && c.Will.QOS == (cflags(src) / 8) % 4 && c.Will.QOS <= 2 && (c.Will.Retain <==> (cflags(src) / 32) % 2 == 1)
+//@   ensures [nowill]  err == nil && (cflags(src) / 4) % 2 == 0 ==> c.Will == nil && (cflags(src) / 8) % 4 == 0 && (cflags(src) / 32) % 2 == 0
+//@   ensures [reencodable] err == nil && c.Will != nil ==> len(c.Will.Topic) >= 1 && len(c.Will.Topic) <= 65535 && len(c.Will.Payload) <= 65535
+//@   ensures [owned]   err == nil && c.Will != nil && len(c.Will.Payload) > 0 ==> fresh(c.Will.Payload)
+//@   ensures [auth]    err == nil ==> ((cflags(src) / 64) % 2 == 1 ==> (cflags(src) / 128) % 2 == 1) && (len(c.ClientID) == 0 ==> c.CleanSession) && len(c.ClientID) <= 65535
+//@   modifies c.Version, c.CleanSession, c.Will, c.KeepAlive, c.ClientID, c.Username, c.Password
